@@ -87,7 +87,7 @@ def model_join(inputs, on, defaults, kt):
     for r in rows:
         for n, v in scalars.items():
             r[n] = v
-    rows.sort(key=lambda r: tuple(r[c] for c in on if c in r))
+    rows.sort(key=lambda r: tuple(kval(kt, r[c]) for c in on if c in r))       # by the key values as the tables hold them ('k11' sorts before 'k3')
     return rows
 
 
@@ -300,6 +300,8 @@ def gen_case(rng):
     nfdef = rng.choice([0, 0, 1]) if nparams > 1 else 0
     fdefaults = {p: 700 + i for i, p in enumerate(params[nparams - nfdef:])}
     universe = [dict(zip(on, t)) for t in ([(i,) for i in range(5)] if len(on) == 1 else [(i, j) for i in range(3) for j in range(2)])]
+    if rng.random() < 0.03:
+        universe = [dict(zip(on, t)) for t in ([(i,) for i in range(70)] if len(on) == 1 else [(i, j) for i in range(12) for j in range(6)])]      # a few long key sets in every tier
     inputs = {}
     any_table_nodef = False
     all_scalar = rng.random() < 0.08
